@@ -333,8 +333,14 @@ static void units_of_stream_must_be_done(int xi, const char *what)
         if (u->migr_pending)
             continue; /* may have been moved to another stream's pool meanwhile */
         int p = u->cur_pool, only = 1, served = 0;
-        if (G.pool[p].sub >= 0)
-            continue;
+        if (G.pool[p].sub >= 0) {
+            /* pool of a stacked scheduler: that scheduler is itself a unit of the pool
+             * it was added to, and it runs until its own pools are empty */
+            int hp = __atomic_load_n(&G.sub[G.pool[p].sub].host_pool, __ATOMIC_SEQ_CST);
+            if (hp == 0 || G.pool[hp - 1].sub >= 0)
+                continue;
+            p = hp - 1;
+        }
         for (int x = 0; x < G.nxs; x++)
             for (int k = 0; k < G.xs[x].npools; k++)
                 if (G.xs[x].pools[k] == p) {
